@@ -138,13 +138,29 @@ func tokOf(words []aWord) (tok token.Token, at int) {
 }
 
 func isFuncDecl(words []aWord) bool {
+	words = skipComments(words)
 	if startWith(words, token.LPAREN) { // func (
-		words = seekAfter(words[1:], token.RPAREN, token.LPAREN) // func (...)
-		if startWith(words, token.LBRACE) {                      // func (...) {
+		words = skipComments(seekAfter(words[1:], token.RPAREN, token.LPAREN)) // func (...)
+		if len(words) == 0 {
 			return false
 		}
+		switch words[0].tok {
+		case token.PERIOD: // func (T).name = (...)
+			return true
+		case token.LPAREN, token.LBRACE, token.FUNC: // func (...) (results) {, func (...) {, func (...) func(
+			return false
+		}
+		// func (recv) nameOrOp(...) is a method; func (...) result {...}() is a function literal
+		return startWith(words[1:], token.LPAREN)
 	}
 	return true
+}
+
+func skipComments(words []aWord) []aWord {
+	for len(words) > 0 && words[0].tok == token.COMMENT {
+		words = words[1:]
+	}
+	return words
 }
 
 func seekAfter(words []aWord, tokR, tokL token.Token) []aWord {
